@@ -18,6 +18,7 @@ World states come from seeded histories of public mutators.
 """
 
 import copy
+import operator
 import random
 
 import egsim  # noqa: F401
@@ -250,6 +251,13 @@ class Harness:
         return {"nodes": [list(n) for n in nodes], "edges": [list(x) for x in edges]}
 
 
+def _attr_norm(ex, val):
+    if hasattr(val, "__next__"):
+        # how much a one-shot iterator still holds, read without consuming it
+        return {"iterator-remaining": operator.length_hint(val, -1)}
+    return ex.norm(val)
+
+
 def deep_snapshot(ex, flag=False):
     """
     Everything observable: structure through public accessors, the set of
@@ -264,7 +272,7 @@ def deep_snapshot(ex, flag=False):
     for lab, d in snap.items():
         obj = w.objs[lab]
         d["names"] = sorted(vars(obj))
-        d["attrs"] = {k: ex.norm(v) for k, v in sorted(public_attrs(obj).items())}
+        d["attrs"] = {k: _attr_norm(ex, v) for k, v in sorted(public_attrs(obj).items())}
     seams.set_flag(flag)
     try:
         for lab, d in snap.items():
@@ -388,6 +396,7 @@ class C13(engine.Property):
         cfg["fl_filters"] = [None, "accept", "reject", "dironly"]
         cfg["result_filters"] = [None, "accept", "even", "reject"]
         cfg["p_more_mutation"] = rng.choice([0.0, 0.15, 0.3])
+        cfg["p_odd_attrs"] = rng.choice([0.0, 0.3, 0.6])
         return cfg
 
     def start(self, cfg):
